@@ -26,7 +26,8 @@ def build_project_sig(sig, names):
             pk_column='id',
             unique_together=[tuple(names.field(x) for x in t) for t in ms['ut']],
             unique_together_applied=bool(ms.get('uta', True)),
-            db_table_comment=ms.get('comment'))
+            db_table_comment=ms.get('comment'),
+            index_together=[tuple(names.field(x) for x in t) for t in (ms.get('it') or [])])
         for ix in ms.get('idx') or []:
             msig.add_index_sig(IndexSignature(
                 fields=[names.field(x) for x in ix['fields']],
